@@ -283,6 +283,14 @@ Theorem C16_results_retained : forall rows calls more j,
 Proof. exact results_retained. Qed.
 Print Assumptions C16_results_retained.
 
+(* a script write through a container element that is a struct held by value is
+   refused (never answered with plain success) and leaves the container as it was *)
+Theorem C16_elem_write_refused : forall ideal st try cell v,
+  fst (pxstep ideal st (PWriteElem try cell v)) = st /\
+  snd (pxstep ideal st (PWriteElem try cell v)) <> o_ok.
+Proof. exact elem_write_refused. Qed.
+Print Assumptions C16_elem_write_refused.
+
 (* non-vacuity of the implications above *)
 Example C16_exact_hyp_met :
   src_wf (KF64, 4617315517961601024) = true /\
